@@ -50,17 +50,34 @@ def make_case(ctx, i, strings=None):
     if r.chance(1, 4):
         scalars_cfg["ID"] = "string"
         scalar_texts["ID"] = dict(ri="string", ro="string", oi="string", oo="string")
+    # the model plugin: @model(type: "...") on whole objects, @model on single object fields
+    model_plugin = r.chance(1, 3)
+    model_types = {}
+    if model_plugin:
+        for d in m["defs"]:
+            if d["k"] != "object":
+                continue
+            if r.chance(1, 4):
+                t = r.choice(["%sModel" % d["name"], "{ readonly id: string }", "Models.%s" % d["name"]])
+                d["dirs"] = d["dirs"] + [G.directive("model", [G.arg("type", G.v_str(t))])]
+                model_types[d["name"]] = t
+            else:
+                for f in d["fields"]:
+                    if r.chance(1, 3):
+                        f["dirs"] = f["dirs"] + [G.directive("model")]
     allow = r.chance(2, 3)
     tcfg = {"scalarTypes": scalars_cfg}
     if not allow or r.chance(1, 2):
         tcfg["allowUndefinedAsOptionalInput"] = allow
     config = {"schema": "./schema/*.graphql", "documents": "./ops/*.graphql",
               "extensions": {"nitrogql": {"generate": {"schemaOutput": "./gen/schema.d.ts", "resolversOutput": "./gen/resolvers.d.ts", "type": tcfg}}}}
+    if model_plugin:
+        config["extensions"]["nitrogql"]["plugins"] = ["nitrogql:model-plugin"]
     files = TG.split_files(m, r, 1 + r.below(3))
     for f in files:
         f["path"] = f["path"][1:]       # relative to the project root: schema/s0.graphql
     return {"id": "g%d" % i, "schemaFiles": files, "opFiles": [], "configText": json.dumps(config), "scalarTexts": scalar_texts,
-            "cfg": {"allowUndefined": allow}, "want": {"resolvers": True}}
+            "cfg": {"allowUndefined": allow, "modelPlugin": model_plugin}, "modelTypeTexts": model_types, "want": {"resolvers": True}}
 
 
 def run(ctx, res):
